@@ -12,24 +12,19 @@ theorem f_O_baseI (s s' : St) (v : Int) (e : Elem) (rest : List Sto) : Inv s →
   simp only [applySto]
   cases hpc : s.opc
   case pt9 =>
-    have hsh := (h.pt9 hpc).2
-    have hmwin := h.mwin
-    simp only [InsShape, hb] at hsh
-    obtain ⟨hv, hr, hp⟩ : v = s.lb - 1 ∧ rest = [] ∧ s.ptr (s.lb - 1) = some e := by grind
+    have hsh := h.pt9 hpc
+    simp only [InsShape, RcPre, hb] at hsh
+    obtain ⟨hv, hr, hp, hsh0, htop, hbase⟩ :
+        v = s.lb - 1 ∧ rest = [] ∧ s.ptr (s.lb - 1) = some e ∧ s.sh = 0 ∧ s.top = s.lt ∧ s.base = s.lb := by grind
     subst hr
+    have hmw := mwin_cons s.A s.ptr s.lb s.top _ e h.mwin hp
     cases h; simp only [hpc, ownerLocked, carry, resetting, ownerFlight] at *
     constructor
     all_goals (try simp only [ownerLocked, carry, resetting, ownerFlight, upd_apply, applySto])
-    case mwin =>
-      intro k hk hk2
-      cases k with
-      | zero => simp [hp]
-      | succ j =>
-        have h1 := hmwin j (by simp at hk; omega) (by omega)
-        simp only [List.getElem?_cons_succ]
-        rw [← h1]; congr 1; omega
-    all_goals (first | assumption | grind [thiefLocked, mayBuf, notTrans, thiefFlight, InsShape] | skip)
+    case mwin => exact hmw
+    case pt9 => intro _; exact Or.inr ⟨hsh0, htop, by omega, Or.inr (Or.inr rfl)⟩
+    tso_rest
   all_goals (exfalso; cases h; simp only [hpc, ownerLocked, carry, resetting, ownerFlight] at *)
-  all_goals grind [CarryShape, Pu2Shape, PofShape, Po6Shape, Po8Shape, Po9Shape, InsShape]
+  all_goals tso_absurd
 
 end MythVerif.WsqTso
